@@ -235,7 +235,7 @@ impl Property for C17 {
         let cfg = PartCfg {
             name: "predict",
             rule: "random chain states (generated histories of context-independent contracts incl. reorgs/clears) and 2-9 probes per history at generated boundaries: a call of a known contract or a creation (incl. factories that CREATE/CREATE2 a child and return its address) by a pkscript or a signer, first as eth_call with the derived sender, then as brc20_call / brc20_deploy / brc20_transact; success flags must agree, the trace output must equal the simulated return/revert data, a simulated creation must return exactly the installed runtime code. Every probe touches pre-existing state or creates (non-trivial = at least one probe executed)",
-            cases: ctx.tier.pick(480, 10_000),
+            cases: ctx.tier.pick(1500, 20_000),
             max_shrink_iters: ctx.tier.pick(300, 1200),
         };
         explore(ctx, ev, &cfg, strategy, check)
